@@ -574,6 +574,10 @@ func (s *Lexer) getNextToken() (*Token, error) {
 		token.TokenType = ERROR
 	case SSTRING_SINGLE:
 		fallthrough
+	case SSTRING_D_ESCAPE:
+		fallthrough
+	case SSTRING_S_ESCAPE:
+		fallthrough
 	case SSTRING_DOUBLE:
 		unendingString = true
 		token.TokenType = ERROR
@@ -711,6 +715,8 @@ func (s *Lexer) getNextToken() (*Token, error) {
 	case SNEQUAL:
 		token.TokenType = NEQUAL
 	case SCOLON:
+		token.TokenType = ERROR
+	case SEXCL:
 		token.TokenType = ERROR
 	case SBLOCKCOMMENT:
 		fallthrough
